@@ -77,6 +77,36 @@ func (g *Gen) styleDec(s string, p int) string {
 	}
 }
 
+// styleInt rewrites a non-negative integer string into another spelling that
+// integer parsers may or may not read as the same number.
+func (g *Gen) styleInt(x *big.Int) string {
+	s := x.String()
+	if x.Sign() < 0 || !g.R.Chance(g.P.StyleRate) {
+		return s
+	}
+	switch g.R.Intn(8) {
+	case 0:
+		return "0" + s
+	case 1:
+		return "00" + s
+	case 2:
+		return "+" + s
+	case 3:
+		return "0x" + x.Text(16)
+	case 4:
+		return "0o" + x.Text(8)
+	case 5:
+		return "0" + x.Text(8)
+	case 6:
+		if len(s) > 3 {
+			return s[:len(s)-3] + "_" + s[len(s)-3:]
+		}
+		return "0b" + x.Text(2)
+	default:
+		return s + ".0"
+	}
+}
+
 // unit is 10^-p.
 func unit(p int) *big.Rat { return new(big.Rat).SetFrac(big.NewInt(1), pow10(p)) }
 
@@ -205,7 +235,7 @@ func date(y int, m time.Month, d int) time.Time { return time.Date(y, m, d, 0, 0
 
 func (g *Gen) batchDates(now time.Time) (time.Time, time.Time) {
 	var start time.Time
-	if bs := g.W.Cur.Batches; len(bs) > 0 && g.R.Chance(0.12) {
+	if bs := g.W.Cur.Batches; len(bs) > 0 && g.R.Chance(g.P.PTie) {
 		// the same start date as an existing batch: ties in every ordering by start date
 		s0 := TsTime(bs[g.R.Intn(len(bs))].StartDate)
 		if s0.Year() >= 1 && s0.Year() < 9990 {
